@@ -61,7 +61,7 @@ class C06(Check):
         for rep in range(reps):
             for driver in DRIVERS:
                 for size in (2, 3, 4, 5, 8):
-                    variants = ["dataframe/centres", "hdf5/index", "random/centres", "dataframe/index"] if driver == "create" else ["-"]
+                    variants = ["dataframe/centres", "hdf5/index", "random/centres", "dataframe/index", "dataframe/generate"] if driver == "create" else ["-"]
                     for var in variants:
                         if q and driver == "create" and size in (5,) and var != "dataframe/centres":
                             continue
@@ -176,7 +176,7 @@ class C06(Check):
         params = dict(seed=case["seed"], max_workers=mw, n=case["n"], chunk=case["chunk"])
         if driver == "create":
             params["source"], params["mode"] = case["variant"].split("/")
-            if params["source"] == "random":
+            if params["source"] == "random" or params["mode"] == "generate":
                 params["n"] = max(params["n"], 60)
         seen_decisions = set()
         mech_seen = {}
@@ -276,6 +276,15 @@ class C06(Check):
                 # ---- results ------------------------------------------------------------------------------------
                 counters["root_results_compared"] += 1
                 root = results.get(0)
+                if driver == "create" and params["mode"] == "generate" and isinstance(root, dict):
+                    # centres come from treecorr's k-means (not reproducible): same record multiset, 2 patches,
+                    # partition reproduced by the reported centres, all ranks agree
+                    if root.get("all") != ref.get("all") or root.get("keys") != [0, 1] or not root.get("partition_reproduced"):
+                        bad(f"root-differs-from-single-process:{tag}:{'records' if root.get('all') != ref.get('all') else 'partition'}",
+                            dict(ctx, root={k: root.get(k) for k in ("n", "keys", "partition_reproduced")}, reference_n=ref.get("n")))
+                    if any(results.get(r) != root for r in range(size)):
+                        bad(f"ranks-disagree-on-broadcast-result:{tag}", dict(ctx))
+                    continue
                 if root != ref:
                     detail = dict(ctx)
                     if driver == "create" and isinstance(root, dict):
